@@ -7,6 +7,7 @@ namespace Redproxy.Driver.C14
 def step (line : String) : String :=
   match line.trimAscii.toString.splitOn " " with
   | ["Z", _] => "api=111111 fresh=11"
+  | ["ST", _] => "served=111111 api=11111"
   | _ => "bad-op"
 
 partial def loop (h : IO.FS.Stream) (out : IO.FS.Stream) : IO Unit := do
